@@ -195,10 +195,10 @@ var valueExternals = map[string]externalFn{
 		}
 		return uint(reflectKind(rV2T(a[0]).t))
 	},
-	"Type": func(fr *frame, a []value) value { return makeReflectType(rV2T(a[0])) },
-	"IsValid": func(fr *frame, a []value) value { return rvValid(a[0]) },
-	"CanAddr": func(fr *frame, a []value) value { return rvAddr(a[0]) != nil },
-	"CanSet":  func(fr *frame, a []value) value { return rvAddr(a[0]) != nil },
+	"Type":         func(fr *frame, a []value) value { return makeReflectType(rV2T(a[0])) },
+	"IsValid":      func(fr *frame, a []value) value { return rvValid(a[0]) },
+	"CanAddr":      func(fr *frame, a []value) value { return rvAddr(a[0]) != nil },
+	"CanSet":       func(fr *frame, a []value) value { return rvAddr(a[0]) != nil },
 	"CanInterface": func(fr *frame, a []value) value { return true },
 	"String": func(fr *frame, a []value) value {
 		if !rvValid(a[0]) {
